@@ -41,7 +41,7 @@ def debug_function(prop: str, func: str, timeout: float, verbose: bool):
 
     reg, mod = load_specs(prop)
     eng = build_engine()
-    names = [q for q in reg.contracts if q.endswith(func)]
+    names = [q for q in reg.contracts if q.endswith(func) and reg.contracts[q].verify]
     for q in names:
         c = reg.contracts[q]
         t0 = time.time()
